@@ -114,7 +114,7 @@ theorem response_wait_ends (st : St) (hg : Good st) (r : Req) (hr : r ∈ st.req
     (hgot : r.got = .nothing) (d : Nat) (hnd : nextDeadline ({ st with out := [] } : St) = some d)
     (hdue : r.deadline ≤ max st.now d) :
     ∃ r' ∈ (step st .tick).reqs, r'.id = r.id ∧ r'.phase = .done := by
-  have hstep : step st .tick = settle settleFuel (pre st .tick).1 := by
+  have hstep : step st .tick = settle (settleFuel (pre st .tick).1) (pre st .tick).1 := by
     rw [step_eq_pre]
     have : (pre st .tick).2 = true := by simp only [pre, hnd]
     rw [this]; rfl
@@ -130,7 +130,7 @@ theorem response_wait_ends (st : St) (hg : Good st) (r : Req) (hr : r ∈ st.req
     · refine List.mem_map.mpr ⟨r, List.mem_filter.mpr ⟨List.mem_map.mpr ⟨r, hr, by rw [if_neg hcnd]⟩, ?_⟩, rfl⟩
       simp [hp, hgot]; exact hdue
     · exact ⟨r, List.mem_map.mpr ⟨r, hr, by rw [if_neg hcnd]⟩, rfl⟩
-  have := donev_settle settleFuel _ r.id hinvP hpre
+  have := donev_settle (settleFuel (pre st .tick).1) _ r.id hinvP hpre
   rw [← hstep] at this
   obtain ⟨c, hc, hi, hph⟩ := this
   obtain ⟨r', hr', rfl⟩ := List.mem_map.mp hc
